@@ -8,9 +8,9 @@ log = subprocess.check_output(["git", "-C", "/repo", "log", "--reverse", "--form
 RULES = [  # first match wins: (regex on subject, property)
     (r"NULL-object guard|orders a NULL (iterator|socket) first|NULL object argument", "C16"),
     (r"mbuff", "C07"),
-    (r"init_from_fd", "C01 (also needed by C19)"),
+    (r"init_from_fd", "C01"),
     (r"str/ustr|spif_str|spif_ustr", "C01"),
-    (r"map remove", "C03 (C06)"),
+    (r"map remove", "C03"),
     (r"sorted insert", "C04"),
     (r"\bcomp\b.*(array|linked_list)|(array|linked_list) comp|objpair comp", "C05"),
     (r"\bdup\b|objpair init|regexp compile|url parse refuses", "C05"),
@@ -23,8 +23,9 @@ RULES = [  # first match wins: (regex on subject, property)
     (r"option|argument-list|counter|lone|argv|pre-parse|REQUIRE\(argc|--args", "C08"),
     (r"spifmem", "C15"),
     (r"silent|debug statements", "C20"),
-    (r"expan|\$|%|builtin|shell_expand", "C10"),
-    (r"conf|context|include|fstate|parse_line|find_file|temp", "C09/C11"),
+    (r"built-in function", "C11"),
+    (r"shell_expand|put_var|expan", "C10"),
+    (r"conf|context|include|fstate|parse_line|find_file|temp", "C09"),
 ]
 fixed, hooks, unk = [], [], []
 for line in log:
